@@ -2,7 +2,9 @@
 //   harness seq                      deterministic single-threaded histories from stdin (one case per line),
 //                                    same canonical output as ocaml/C12/driver.ml
 //        B <kind> <nprod> op...      op: p<i> push_back(const&) by producer i   m<i> push_back(&&)   c consume   s size   e empty
-//        V <kind> <v0|-> op...       op: a<v> assign   u update   g get   r ref     (v0 = - : default-constructed)
+//        V <kind> <v0|-> op...       op: a<v> assign   A<n>:<s> n assignments s,s+1,..   u update   g get   r ref     (v0 = - : default-constructed)
+//   harness seqbig <kind> <nprod> <N> [tracefile]   single-threaded backlog: N pushes, then size(), empty(), consume(); 5 more; drain
+//   harness stressvalburst <kind> [tracefile]   producer thread assigns in bursts of 2^k-ish lengths, consumer thread updates only between bursts
 //   harness stressbuf <kind> <nprod> <npush> [spin] [tracefile]   threads; oracle inside; prints OK .../FAIL ...;
 //                                    tracefile: the consumer's history (one line per round: b <size()> <empty()> p.s p.s ...)
 //                                    for the extracted acceptance function (ocaml/C12/driver.ml tracebuf)
@@ -112,6 +114,11 @@ static std::string runV(TransactionalValue<T> &tv, const std::vector<std::string
     const std::string &t = tok[i];
     if (i > 3) out << " ; ";
     if (t[0] == 'a') { tv = VC<T>::enc(std::atol(t.c_str() + 1)); out << "ok"; }
+    else if (t[0] == 'A') {            // A<n>:<start>  n assignments start, start+1, ... in a row
+      long n = std::atol(t.c_str() + 1); size_t c = t.find(':'); long st = c == std::string::npos ? 1 : std::atol(t.c_str() + c + 1);
+      for (long k = 0; k < n; ++k) tv = VC<T>::enc(st + k);
+      out << "ok";
+    }
     else if (t == "u") out << (tv.update() ? "true" : "false");
     else if (t == "g") { long v = -1; bool ok = VC<T>::dec(tv.get(), v); out << v << (ok ? "" : "!CORRUPT"); }
     else if (t == "r") { long v = -1; bool ok = VC<T>::dec(tv.ref(), v); out << v << (ok ? "" : "!CORRUPT"); }
@@ -296,7 +303,9 @@ static int stressobs(int nprod, long bursts, long burstlen, const char *tracePat
     }
   };
   for (long b = 1; b <= bursts; ++b) {
+    const bool lazy = burstlen >= 1024 && (b & 1);      // slow consumer: the whole burst piles up
     while (arrived.load() < (long)nprod * b) {
+      if (lazy) { std::this_thread::yield(); continue; }
       std::vector<T> v = buf.consume();
       if (v.empty()) { std::this_thread::yield(); continue; }   // nothing to record or check
       ++overlapped;
@@ -339,6 +348,118 @@ static int stressobs(int nprod, long bursts, long burstlen, const char *tracePat
   return 0;
 }
 
+// ------------------------------------------------------------ sequential backlog (exact)
+template <typename T>
+static int seqbig(int nprod, long N, const char *tracePath)
+{
+  TransactionalBuffer<T> buf;
+  const TransactionalBuffer<T> &cbuf = buf;
+  std::vector<long> pushed((size_t)nprod, 0), next((size_t)nprod, 0);
+  std::vector<std::string> fails;
+  struct Round { size_t before; bool wasEmpty; std::vector<std::pair<int, long>> els; };
+  std::vector<Round> trace;
+  long got = 0;
+  auto push = [&](int p, bool mv) { T v = EC<T>::enc(p, pushed[(size_t)p]++); if (mv) buf.push_back(std::move(v)); else buf.push_back(v); };
+  auto round = [&](long expect) {
+    size_t n = cbuf.size(); bool e = cbuf.empty();
+    std::vector<T> b = buf.consume();
+    trace.push_back(Round{n, e, {}}); trace.back().els.reserve(b.size());
+    if ((long)n != expect && fails.size() < 6) fails.push_back("size() == " + std::to_string(n) + " with " + std::to_string(expect) + " elements pending");
+    if (e != (expect == 0) && fails.size() < 6) fails.push_back(std::string("empty() == ") + (e ? "true" : "false") + " with " + std::to_string(expect) + " elements pending");
+    if ((long)b.size() != expect && fails.size() < 6) fails.push_back("consume() returned " + std::to_string(b.size()) + " of the " + std::to_string(expect) + " pending elements");
+    for (size_t k = 0; k < b.size(); ++k) {
+      int p = -1; long s = -1;
+      bool ok = EC<T>::dec(b[k], p, s) && p >= 0 && p < nprod;
+      ++got;
+      trace.back().els.push_back(ok ? std::make_pair(p, s) : std::make_pair(-1, -1L));
+      if (!ok) { if (fails.size() < 6) fails.push_back("corrupt payload"); continue; }
+      if (s != next[(size_t)p]) {
+        if (fails.size() < 6) fails.push_back("producer " + std::to_string(p) + ": got seq " + std::to_string(s) + " where seq " + std::to_string(next[(size_t)p]) +
+                                              " was due (batch " + std::to_string(trace.size() - 1) + ", position " + std::to_string(k) + ")");
+        next[(size_t)p] = s + 1;
+      } else ++next[(size_t)p];
+    }
+  };
+  for (long i = 0; i < N; ++i) push((int)(((unsigned long)i * 2654435761UL >> 13) % (unsigned long)nprod), (i & 1) != 0);
+  round(N);
+  for (int i = 0; i < 5; ++i) push(i % nprod, i & 1);
+  long left = N + 5 - got;            // whatever a (wrong) first consume() left behind is still due, in order
+  round(left);
+  for (int i = 0; i < 4 && !cbuf.empty(); ++i) round((long)cbuf.size());
+  round(0);
+  if (got != N + 5 && fails.size() < 8) fails.push_back("consumed " + std::to_string(got) + " elements, pushed " + std::to_string(N + 5));
+  if (tracePath) {
+    std::ofstream tf(tracePath);
+    tf << "TBV " << nprod;
+    for (int p = 0; p < nprod; ++p) tf << " " << pushed[(size_t)p];
+    tf << "\n";
+    for (auto &r : trace) {
+      tf << "Q " << r.before << " " << (r.wasEmpty ? 1 : 0);
+      for (auto &x : r.els) tf << " " << x.first << "." << x.second;
+      tf << "\n";
+    }
+    tf << "END\n";
+  }
+  if (fails.empty()) std::cout << "OK backlog=" << N << " producers=" << nprod << " rounds=" << trace.size() << " elements=" << got << "\n";
+  else for (auto &f : fails) std::cout << "FAIL " << f << "\n";
+  return 0;
+}
+
+// ------------------------------------------------ value: bursts of assignments between two update() calls
+template <typename T>
+static int stressvalburst(const char *tracePath)
+{
+  static const long gaps[] = {1, 255, 256, 257, 32767, 32768, 32769, 65535, 65536, 65537, 131071, 131072, 131073, 65536, 65536, 3};
+  const int ng = (int)(sizeof(gaps) / sizeof(gaps[0]));
+  long n = 0; for (int i = 0; i < ng; ++i) n += gaps[i];
+  TransactionalValue<T> tv(VC<T>::enc(0));
+  std::atomic<long> quiet(0), ack(0);
+  std::thread prod([&] {
+    long i = 0;
+    for (int g = 0; g < ng; ++g) {
+      for (long k = 0; k < gaps[g]; ++k) tv = VC<T>::enc(++i);
+      quiet.store(i);
+      while (ack.load() < i) std::this_thread::yield();
+    }
+  });
+  std::vector<std::string> fails;
+  std::vector<std::pair<char, long>> trace;
+  long prev = 0, acked = 0;
+  for (int g = 0; g < ng; ++g) {
+    long q;
+    while ((q = quiet.load()) <= acked) std::this_thread::yield();     // the consumer sleeps through the burst
+    bool u = tv.update();
+    long v = -1; bool ok = VC<T>::dec(tv.get(), v); if (!ok) v = -1;
+    trace.push_back(std::make_pair(u ? 'T' : 'F', v));
+    trace.push_back(std::make_pair('q', q));
+    if (fails.size() < 5) {
+      if (v != q) fails.push_back("after a burst of " + std::to_string(gaps[g]) + " assignments (" + std::to_string(q) + " in total, producer idle) update() returned " +
+                                  (u ? "true" : "false") + " and get() gave " + std::to_string(v) + ", last assigned " + std::to_string(q));
+      else if (!u) fails.push_back("update() returned false although it installed the newer value " + std::to_string(q) + " (previous " + std::to_string(prev) + ")");
+    }
+    bool u2 = tv.update();
+    long v2 = -1; VC<T>::dec(tv.get(), v2);
+    trace.push_back(std::make_pair(u2 ? 'T' : 'F', v2));
+    if (u2 && fails.size() < 5) fails.push_back("second update() with nothing newly assigned returned true");
+    prev = v2;
+    acked = q; ack.store(q);
+  }
+  prod.join();
+  if (tracePath) {
+    std::ofstream tf(tracePath);
+    tf << "TV " << n << "\n";
+    for (auto &e : trace) {
+      if (e.first == 'T') tf << "u1 " << e.second << "\n";
+      else if (e.first == 'F') tf << "u0 " << e.second << "\n";
+      else tf << "q " << e.second << "\n";
+    }
+    tf << "END\n";
+  }
+  if (fails.empty()) std::cout << "OK bursts=" << ng << " assignments=" << n << " last=" << prev << "\n";
+  else for (auto &f : fails) std::cout << "FAIL " << f << "\n";
+  return 0;
+}
+
 // ------------------------------------------------------------------------- stress: value
 // The producer assigns 1..n.  After every few assignments (and after the last one) it pauses at a
 // "quiescent point": it publishes quiet = i (assignment i has completed) and waits for the consumer's
@@ -354,7 +475,7 @@ static int stressval(long n, int spinN, const char *tracePath)
     while (!go.load()) {}
     for (long i = 1; i <= n; ++i) {
       tv = VC<T>::enc(i);
-      if (i == n || (i * 2654435761UL >> 7) % 8 == 0) { quiet.store(i); while (ack.load() < i) std::this_thread::yield(); }
+      if (i == n || (i * 2654435761UL >> 7) % 16 == 0) { quiet.store(i); while (ack.load() < i) std::this_thread::yield(); }
       else if (spinN) spin((int)(i % (spinN + 1)));
     }
   });
@@ -390,6 +511,7 @@ static int stressval(long n, int spinN, const char *tracePath)
       if (q == n) break;
     }
     if (spinN) spin(spinN);
+    else if (!u) std::this_thread::yield();   // nothing new: let the producer run (matters on a loaded machine)
   }
   prod.join();
   if (prev != n) fails.push_back("after the producer finished, update()+get() gave " + std::to_string(prev) + ", last assigned " + std::to_string(n));
@@ -425,6 +547,20 @@ int main(int argc, char **argv)
     if (kind == "pod") return stressbuf<Pod>(nprod, npush, sp, tp);
     if (kind == "str") return stressbuf<std::string>(nprod, npush, sp, tp);
     return stressbuf<std::vector<int>>(nprod, npush, sp, tp);
+  }
+  if (mode == "seqbig") {
+    int nprod = argc > 3 ? std::atoi(argv[3]) : 1;
+    long N = argc > 4 ? std::atol(argv[4]) : 1000;
+    const char *tp = argc > 5 ? argv[5] : nullptr;
+    if (kind == "pod") return seqbig<Pod>(nprod, N, tp);
+    if (kind == "str") return seqbig<std::string>(nprod, N, tp);
+    return seqbig<std::vector<int>>(nprod, N, tp);
+  }
+  if (mode == "stressvalburst") {
+    const char *tp = argc > 3 ? argv[3] : nullptr;
+    if (kind == "pod") return stressvalburst<int>(tp);
+    if (kind == "str") return stressvalburst<std::string>(tp);
+    return stressvalburst<std::vector<int>>(tp);
   }
   if (mode == "stressobs") {
     int nprod = argc > 3 ? std::atoi(argv[3]) : 2;
